@@ -118,3 +118,25 @@ Theorem C01_back_vm_scalar :
     | inr x => (RErr (cls x) s, defers)
     end.
 Proof. exact vm_scalar. Qed.
+
+(* Assembled: for every whole program that consists of one scalar expression whose evaluation fits the VM's 1024
+   operand slots, the compiler model accepts it, and running the compiled code on the VM model from the initial machine
+   state gives the value - or the error class - that the reference semantics assigns to the source.  These are the
+   very functions (compile_program, VM.run, Sem.run) that are extracted and compared with the real compiler and VM on
+   every run.  The bound is real: deeper operand nesting overflows the implementation's stack as well. *)
+Require Import RV.proofs.EndToEndScalar.
+Theorem C01_scalar_programs : forall e, (need e <= MAXSTACK)%nat ->
+  exists c tabs, compile_program (height e) nil (embed e :: nil) = inr (c, tabs) /\
+  forall ng bs, exists k, forall f fs, (height e <= fs)%nat ->
+    agree (fst (Sem.run fs (embed e :: nil))) (VM.run (k + S f) c tabs ng bs).
+Proof. exact scalar_programs_end_to_end. Qed.
+
+(* Non-vacuity: (7 - 10) * 2 < 0 ? 1 / 0 : 5 compiles, and both sides stop with the division error *)
+Example C01_scalar_program_example :
+  let e := STern (SBin CLt (SBin BMul (SBin BSub (SInt 7) (SInt 10)) (SInt 2)) (SInt 0)) (SBin BDiv (SInt 1) (SInt 0)) (SInt 5) in
+  (need e <= MAXSTACK)%nat /\
+  match compile_program 10 nil (embed e :: nil) with
+  | inr (c, tabs) => match VM.run 100 c tabs 0 nil with RErr XDiv0 _ => True | _ => False end
+  | inl _ => False
+  end /\ fst (Sem.run 10 (embed e :: nil)) = Sem.OErr Sem.XDiv0.
+Proof. cbv zeta. split; [apply PeanoNat.Nat.leb_le; vm_compute; reflexivity|]. split; [vm_compute; exact Logic.I|vm_compute; reflexivity]. Qed.
